@@ -113,5 +113,35 @@ func TestVerif(t *testing.T) {
 		if structured && got != want.String() {
 			enc.Encode(vrec{Kind: "viol", Key: "ienv-expand", Tmpl: vb(tmpl), What: "ExpandEnvWithDefault(" + tmpl + ") = " + got + " want " + want.String()})
 		}
+		// raw templates (literal braces next to placeholders): position-wise reference. Values and the
+		// default are free of braces and no literal piece can complete a key name, so reading the
+		// template left to right - {} is the default, {key} a value, anything else itself - is what
+		// the documented expansion means, whatever order the substitutions are made in.
+		if !structured {
+			var ref strings.Builder
+			for p := 0; p < len(tmpl); {
+				if strings.HasPrefix(tmpl[p:], "{}") {
+					ref.WriteString(dflt)
+					p += 2
+					continue
+				}
+				hit := false
+				for _, k := range order {
+					if strings.HasPrefix(tmpl[p:], "{"+k+"}") {
+						ref.WriteString(envs[k])
+						p += len(k) + 2
+						hit = true
+						break
+					}
+				}
+				if !hit {
+					ref.WriteByte(tmpl[p])
+					p++
+				}
+			}
+			if got != ref.String() {
+				enc.Encode(vrec{Kind: "viol", Key: "ienv-expand-literal-braces", Tmpl: vb(tmpl), What: "ExpandEnvWithDefault(" + tmpl + ") = " + got + " want " + ref.String()})
+			}
+		}
 	}
 }
